@@ -111,18 +111,27 @@ let () =
          handled as usual, the send side by the rfbWriteExact mirror; bytes sent and reads are not compared *)
       let keep l = not (String.length l >= 5 && (String.sub l 0 5 = "send " || String.sub l 0 5 = "reads")) in
       let t1 = List.filter keep (trace (http_process_n fs_real v_tree !cfg [Data (hb h)])) in
+      let opened = List.exists (fun l -> String.length l > 5 && String.sub l 0 5 = "open " && l.[String.length l - 1] = '1') t1 in
+      let len = z_of_int 70000 in
+      let ends_r = String.length dec > 0 && dec.[String.length dec - 1] = 'r' in
+      let mw = z_of_int (int_of_string maxwait) in
+      let show = function
+        | Some (r, t) -> [Printf.sprintf "vwait %d" (int_of_z t); Printf.sprintf "complete %s" (b2s (r = WOk))]
+        | None -> ["outoffuel"] in
+      (* the tree: rfbWriteExact *)
+      let tree =
+        if not opened then [] else
+        let evs = List.init (String.length dec) (fun k -> if dec.[k] = 'r' then WReady else WTimeout) in
+        show (wx_loop (if ends_r then evs @ [WWrote len] else evs) mw c20_WX_SLICE_MS len Z0 Z0) in
+      (* with notes/fix_C20_4.diff: httpWrite with a deadline of 3 x rfbMaxClientWait for the response *)
+      let alt =
+        if not opened then [] else
+        let evs = List.init (String.length dec) (fun k -> if dec.[k] = 'r' then DReady Z0 else DTimeout) in
+        show (wxd_loop (if ends_r then evs @ [DWrote len] else evs) mw c20_WX_SLICE_MS (Z.mul (z_of_int 3) mw) len Z0 Z0) in
       print_endline "sreq";
       List.iter print_endline t1;
-      if List.exists (fun l -> String.length l > 5 && String.sub l 0 5 = "open " && l.[String.length l - 1] = '1') t1 then begin
-        let len = z_of_int 70000 in
-        let ends_r = String.length dec > 0 && dec.[String.length dec - 1] = 'r' in
-        let evs = List.init (String.length dec) (fun k -> if dec.[k] = 'r' then WReady else WTimeout) in
-        let sched = if ends_r then evs @ [WWrote len] else evs in
-        (match wx_loop sched (z_of_int (int_of_string maxwait)) c20_WX_SLICE_MS len Z0 Z0 with
-         | Some (r, t) ->
-           Printf.printf "vwait %d\n" (int_of_z t);
-           Printf.printf "complete %s\n" (b2s (r = WOk))
-         | None -> print_endline "outoffuel") end
+      List.iter print_endline tree;
+      if alt <> tree then List.iter (fun l -> print_endline ("alt " ^ l)) (t1 @ alt)
     | "poison" :: _ -> print_endline "poison"
     | ["atoi"; h] -> Printf.printf "atoi %d\n" (int_of_z (atoi (hb h)))
     | _ -> Printf.printf "?? %s\n" line)
